@@ -317,6 +317,7 @@ type Finding struct {
 	Detail   string  `json:"detail"`
 	Bounds   []Bound `json:"bounds"`
 	Status   int     `json:"http_status"`
+	Side     string  `json:"side"` // which predicate is to blame: lo | hi (timestamp or date bound), ty (type filter)
 }
 
 func rightSignal(ep *Endpoint, e Entity) bool {
@@ -380,7 +381,7 @@ func judge(ep *Endpoint, cluster string, w Win, wloc *time.Location, o *Obs) []F
 	}
 	for si := range o.Stmts {
 		st := &o.Stmts[si]
-		mk := func(kind, why, evidence, table string, e Entity, detail string) Finding {
+		mk := func(kind, why, side, evidence, table string, e Entity, detail string) Finding {
 			var cls []string
 			var bounds []Bound
 			for _, c := range st.Classes {
@@ -390,7 +391,7 @@ func judge(ep *Endpoint, cluster string, w Win, wloc *time.Location, o *Obs) []F
 				}
 			}
 			return Finding{Kind: kind, Why: why, Endpoint: ep.Name, Cluster: cluster, TZ: time.Local.String(), WriterTZ: wloc.String(), Win: w, Stmt: si, Table: table,
-				Class: strings.Join(cls, " | "), SQL: st.SQL, Entity: e, Visible: vis[e.Marker], Evidence: evidence, Detail: detail, Bounds: bounds, Status: o.Status}
+				Class: strings.Join(cls, " | "), SQL: st.SQL, Entity: e, Visible: vis[e.Marker], Evidence: evidence, Detail: detail, Bounds: bounds, Status: o.Status, Side: side}
 		}
 		joinTables := map[string]bool{}
 		for _, sc := range st.Scans {
@@ -443,14 +444,14 @@ func judge(ep *Endpoint, cluster string, w Win, wloc *time.Location, o *Obs) []F
 				if admitted {
 					switch {
 					case !rightSignal(ep, e):
-						fs = append(fs, mk("leak", "other-signal", evidence, table, e, fmt.Sprintf("row of signal type %d admitted on a request for signal %d", e.Type, ep.Signal)))
+						fs = append(fs, mk("leak", "other-signal", "ty", evidence, table, e, fmt.Sprintf("row of signal type %d admitted on a request for signal %d", e.Type, ep.Signal)))
 					case byTs && (rowTs(table, e) < lo || rowTs(table, e) > hi):
-						fs = append(fs, mk("leak", "outside-window", evidence, table, e,
+						fs = append(fs, mk("leak", "outside-window", map[bool]string{true: "lo", false: "hi"}[rowTs(table, e) < lo], evidence, table, e,
 							fmt.Sprintf("row at %d admitted; the request window is [%d, %d%s, readable at most [%d, %d]", e.TsNs, f, t, map[bool]string{true: "]", false: ")"}[ep.UpIncl], lo, hi)))
 					case !byTs:
 						dlo, dhi := writerDay(lo-m30Ns, info.WRule, wloc), writerDay(hiPoint, info.WRule, wloc)
 						if (day < dlo || day > dhi) && vis[e.Marker] {
-							fs = append(fs, mk("leak", "outside-window", evidence+"+response", table, e,
+							fs = append(fs, mk("leak", "outside-window", map[bool]string{true: "lo", false: "hi"}[day < dlo], evidence+"+response", table, e,
 								fmt.Sprintf("index row of day %d admitted and returned; the days the window touches are %d..%d", day, dlo, dhi)))
 						}
 					}
@@ -469,10 +470,10 @@ func judge(ep *Endpoint, cluster string, w Win, wloc *time.Location, o *Obs) []F
 					for _, b := range c.Bounds {
 						switch {
 						case b.Col == "date" && b.Op == "ge" && day < b.Day, b.Col == "date" && b.Op == "le" && day > b.Day:
-							fs = append(fs, mk("miss", "date-bound", "scan+bounds+response", table, e,
+							fs = append(fs, mk("miss", "date-bound", map[bool]string{true: "lo", false: "hi"}[b.Op == "ge"], "scan+bounds+response", table, e,
 								fmt.Sprintf("row at %d is inside the window [%d, %d]; its index row is stored under day %d (writer rule %s, zone %s) and is rejected by %s", e.TsNs, f, t, day, info.WRule, wloc, b.Text)))
 						case b.Col == "type" && !containsI(b.Set, int64(e.Type)):
-							fs = append(fs, mk("miss", "type-filter", "scan+bounds+response", table, e, fmt.Sprintf("row of type %d rejected by %s", e.Type, b.Text)))
+							fs = append(fs, mk("miss", "type-filter", "ty", "scan+bounds+response", table, e, fmt.Sprintf("row of type %d rejected by %s", e.Type, b.Text)))
 						}
 					}
 				}
